@@ -7,7 +7,13 @@ import (
 	"errors"
 	"fmt"
 	"io"
+	"os"
+	"runtime"
+	"runtime/debug"
 	"strings"
+	"sync"
+	"sync/atomic"
+	"time"
 
 	"github.com/ossrs/go-oryx-lib/websocket"
 	"verifharness/ld"
@@ -450,9 +456,9 @@ func cutOffsets(frameLen, headerLen int, thorough bool, seed int) []int {
 			set[o] = true
 		}
 	}
-	max := 24
+	max := 40
 	if thorough {
-		max = 300
+		max = 140
 	}
 	if frameLen <= max {
 		for o := 1; o < frameLen; o++ {
@@ -502,79 +508,132 @@ func deviationOf(cs *wsCase, kind string, o observed) string {
 
 var segs = []string{"whole", "one", "random"}
 
-func init() {
-	registry["reader"] = func(c *rp.Ctx, i int, raw json.RawMessage) rp.Result {
-		var cs wsCase
-		if err := json.Unmarshal(raw, &cs); err != nil {
-			panic(err)
-		}
-		if len(cs.Steps) == 0 || len(cs.End) == 0 || (cs.Role != "server" && cs.Role != "client") {
-			rp.Bug("malformed case %d", i)
-		}
-		thorough := c.Tier == "thorough"
-		var wire []byte
-		lastStart, lastHdr := 0, 0
-		for k, s := range cs.Steps {
-			f, h := expand(s, c.Seed)
-			if k == len(cs.Steps)-1 {
-				lastStart, lastHdr = len(wire), h
-			}
-			wire = append(wire, f...)
-		}
-		last := cs.Steps[len(cs.Steps)-1]
-		maxMsgs := len(cs.Steps) + 1
-		runs := 0
-
-		fail := func(what, kind string, v variant, where string, o observed) rp.Result {
-			return rp.Result{OK: false, What: fmt.Sprintf("%s role, limit %d, %d frame(s), %s, %s: %s", cs.Role, cs.Limit, len(cs.Steps), where, v, what),
-				Deviation: deviationOf(&cs, kind, o),
-				Observed:  map[string]interface{}{"messages": len(o.Msgs), "err": fmt.Sprint(o.Err), "wrote": fmt.Sprintf("% x", o.Wrote)}}
-		}
-
-		// (1) the stream ends after the last frame
-		variants := []variant{{0, "whole", 0}, {1 + (i+c.Seed)%2, segs[1+(i+c.Seed)%2], []int{0, 125, 1024}[(i/2+c.Seed)%3]}}
-		if thorough {
-			variants = []variant{{0, "whole", 0}, {1, "one", 125}, {2, "random", 1024}, {(i + c.Seed) % 3, "random", 0}}
-		}
-		if len(wire) > 40000 {
-			// large payloads: byte-wise delivery of 64 KiB frames costs too much for every case
-			for j := range variants {
-				if variants[j].Seg == "one" {
-					variants[j].Seg = "random"
+// one case under a watchdog; a panic escaping the library is a verdict, a harness bug ends the process
+func guarded(c *rp.Ctx, i int, raw json.RawMessage) rp.Result {
+	done := make(chan rp.Result, 1)
+	go func() {
+		defer func() {
+			if e := recover(); e != nil {
+				switch e.(type) {
+				case rp.HarnessBug, *json.UnmarshalTypeError, *json.SyntaxError, *json.InvalidUnmarshalError:
+					fmt.Fprintf(os.Stderr, "replay: harness bug on case %d: %v\n%s\n", i, e, debug.Stack())
+					os.Exit(3)
 				}
+				done <- rp.Result{I: i, OK: false, What: fmt.Sprintf("panic: %v", e), Observed: string(debug.Stack())}
 			}
-		}
-		for _, v := range variants {
-			o := drive(&cs, wire, v, c.Seed, maxMsgs)
-			runs++
-			if what, kind := compare(&cs, o, c.Seed, cs.Delivered, cs.Pongs, cs.End); what != "" {
-				return fail(what, kind, v, "stream ended after the last frame", o)
-			}
-			if cs.Clean && wrote1002(o.Wrote) {
-				return fail("every frame was acceptable and the stream ended at a frame boundary, but a Close 1002 (protocol error) was written", "outcome", v, "stream ended after the last frame", o)
-			}
-		}
-
-		// (2) the stream ends inside the last frame: nothing of it is delivered or answered
-		nd, np := 0, 0
-		if len(cs.Steps) > 1 {
-			prev := cs.Steps[len(cs.Steps)-2]
-			nd, np = prev.Nd, prev.Np
-		}
-		if nd > len(cs.Delivered) || np > len(cs.Pongs) || len(last.Cut) == 0 {
-			rp.Bug("case %d: inconsistent step counters", i)
-		}
-		for j, off := range cutOffsets(len(wire)-lastStart, lastHdr, thorough, c.Seed+i) {
-			v := variant{(i + j + c.Seed) % 3, segs[(i/3+j+c.Seed)%3], []int{0, 125}[(i+j)%2]}
-			if len(wire) > 40000 && v.Seg == "one" {
-				v.Seg = "whole"
-			}
-			o := drive(&cs, wire[:lastStart+off], v, c.Seed, maxMsgs)
-			runs++
-			if what, kind := compare(&cs, o, c.Seed, cs.Delivered[:nd], cs.Pongs[:np], last.Cut); what != "" {
-				return fail(what, kind, v, fmt.Sprintf("stream cut %d bytes into the last frame (header %d, frame %d bytes)", off, lastHdr, len(wire)-lastStart), o)
-			}
-		}
-		return rp.Result{OK: true, Nontriv: true, Info: runs}
+		}()
+		r := replayCase(c, i, raw)
+		r.I = i
+		done <- r
+	}()
+	select {
+	case r := <-done:
+		return r
+	case <-time.After(rp.CaseTimeout):
+		return rp.Result{I: i, OK: false, What: fmt.Sprintf("stall: the case did not finish within %v (a call into the library never returned)", rp.CaseTimeout)}
 	}
+}
+
+func init() {
+	// cases are independent and single-threaded: replay them on all cores
+	batchRegistry["reader"] = func(c *rp.Ctx, cases []json.RawMessage) []rp.Result {
+		out := make([]rp.Result, len(cases))
+		workers := runtime.GOMAXPROCS(0)
+		if workers > 12 {
+			workers = 12
+		}
+		var next int64 = -1
+		var wg sync.WaitGroup
+		for w := 0; w < workers; w++ {
+			wg.Add(1)
+			go func() {
+				defer wg.Done()
+				for {
+					i := int(atomic.AddInt64(&next, 1))
+					if i >= len(cases) {
+						return
+					}
+					out[i] = guarded(c, i, cases[i])
+					cases[i] = nil
+				}
+			}()
+		}
+		wg.Wait()
+		return out
+	}
+}
+
+func replayCase(c *rp.Ctx, i int, raw json.RawMessage) rp.Result {
+	var cs wsCase
+	if err := json.Unmarshal(raw, &cs); err != nil {
+		panic(err)
+	}
+	if len(cs.Steps) == 0 || len(cs.End) == 0 || (cs.Role != "server" && cs.Role != "client") {
+		rp.Bug("malformed case %d", i)
+	}
+	thorough := c.Tier == "thorough"
+	var wire []byte
+	lastStart, lastHdr := 0, 0
+	for k, s := range cs.Steps {
+		f, h := expand(s, c.Seed)
+		if k == len(cs.Steps)-1 {
+			lastStart, lastHdr = len(wire), h
+		}
+		wire = append(wire, f...)
+	}
+	last := cs.Steps[len(cs.Steps)-1]
+	maxMsgs := len(cs.Steps) + 1
+	runs := 0
+
+	fail := func(what, kind string, v variant, where string, o observed) rp.Result {
+		return rp.Result{OK: false, What: fmt.Sprintf("%s role, limit %d, %d frame(s), %s, %s: %s", cs.Role, cs.Limit, len(cs.Steps), where, v, what),
+			Deviation: deviationOf(&cs, kind, o),
+			Observed:  map[string]interface{}{"messages": len(o.Msgs), "err": fmt.Sprint(o.Err), "wrote": fmt.Sprintf("% x", o.Wrote)}}
+	}
+
+	// (1) the stream ends after the last frame
+	variants := []variant{{0, "whole", 0}, {1 + (i+c.Seed)%2, segs[1+(i+c.Seed)%2], []int{0, 125, 1024}[(i/2+c.Seed)%3]}}
+	if thorough {
+		variants = []variant{{0, "whole", 0}, {1, "one", 125}, {2, "random", 1024}, {(i + c.Seed) % 3, "random", 0}}
+	}
+	if len(wire) > 40000 {
+		// large payloads: byte-wise delivery of 64 KiB frames costs too much for every case
+		for j := range variants {
+			if variants[j].Seg == "one" {
+				variants[j].Seg = "random"
+			}
+		}
+	}
+	for _, v := range variants {
+		o := drive(&cs, wire, v, c.Seed, maxMsgs)
+		runs++
+		if what, kind := compare(&cs, o, c.Seed, cs.Delivered, cs.Pongs, cs.End); what != "" {
+			return fail(what, kind, v, "stream ended after the last frame", o)
+		}
+		if cs.Clean && wrote1002(o.Wrote) {
+			return fail("every frame was acceptable and the stream ended at a frame boundary, but a Close 1002 (protocol error) was written", "outcome", v, "stream ended after the last frame", o)
+		}
+	}
+
+	// (2) the stream ends inside the last frame: nothing of it is delivered or answered
+	nd, np := 0, 0
+	if len(cs.Steps) > 1 {
+		prev := cs.Steps[len(cs.Steps)-2]
+		nd, np = prev.Nd, prev.Np
+	}
+	if nd > len(cs.Delivered) || np > len(cs.Pongs) || len(last.Cut) == 0 {
+		rp.Bug("case %d: inconsistent step counters", i)
+	}
+	for j, off := range cutOffsets(len(wire)-lastStart, lastHdr, thorough, c.Seed+i) {
+		v := variant{(i + j + c.Seed) % 3, segs[(i/3+j+c.Seed)%3], []int{0, 125}[(i+j)%2]}
+		if len(wire) > 40000 && v.Seg == "one" {
+			v.Seg = "whole"
+		}
+		o := drive(&cs, wire[:lastStart+off], v, c.Seed, maxMsgs)
+		runs++
+		if what, kind := compare(&cs, o, c.Seed, cs.Delivered[:nd], cs.Pongs[:np], last.Cut); what != "" {
+			return fail(what, kind, v, fmt.Sprintf("stream cut %d bytes into the last frame (header %d, frame %d bytes)", off, lastHdr, len(wire)-lastStart), o)
+		}
+	}
+	return rp.Result{OK: true, Nontriv: true, Info: runs}
 }
